@@ -52,6 +52,9 @@ type c08Case struct {
 	NoMP      bool         `json:"no_mp"`
 	RAddPath  [][]c08Tuple `json:"radd_path"` // several ADD-PATH capabilities, each a tuple list
 	RAS4      bool         `json:"ras4"`
+	// RAS4Decoy != 0: the OPEN carries the 4-octet AS capability twice; the first instance holds this value, the last
+	// one the real AS (the last instance of a repeated capability is the one that counts, in validation and after it)
+	RAS4Decoy uint32       `json:"ras4_decoy,omitempty"`
 	RExt      bool         `json:"rext"`
 	RUnknown  int          `json:"runknown"`   // number of unknown capabilities
 	SplitCaps bool         `json:"split_caps"` // one optional parameter per capability
@@ -125,6 +128,12 @@ func drawC08(t *rapid.T) c08Case {
 	}
 	if !c.RAS4 && c.PeerAS > 65535 {
 		c.PeerAS = 65001
+	}
+	if c.RAS4 && rapid.IntRange(0, 3).Draw(t, "ras4_decoy") == 0 {
+		c.RAS4Decoy = rapid.SampledFrom([]uint32{c.effLocalAS(), c.LocalAS, c.PeerAS + 1, 65001, 4200000001}).Draw(t, "ras4_decoy_v")
+		if c.RAS4Decoy == c.PeerAS {
+			c.RAS4Decoy = c.PeerAS + 2
+		}
 	}
 	nf := rapid.IntRange(1, len(c08Families)).Draw(t, "nfams")
 	perm := rapid.Permutation([]int{0, 1, 2, 3, 4}).Draw(t, "fams")
@@ -243,6 +252,9 @@ func c08PeerOpen(c *c08Case, p *simPeerDef) *bgp.BGPMessage {
 		caps = append(caps, bgp.NewCapMultiProtocol(c08Families[i]))
 	}
 	if c.RAS4 {
+		if c.RAS4Decoy != 0 {
+			caps = append(caps, bgp.NewCapFourOctetASNumber(c.RAS4Decoy))
+		}
 		caps = append(caps, bgp.NewCapFourOctetASNumber(c.PeerAS))
 	}
 	if c.RExt {
